@@ -23,6 +23,9 @@ type LocalAssignStmt struct {
 
 	Names []string
 	Exprs []Expr
+	// IsLocalFunc is set for `local function name ...`: the name is in scope
+	// inside the function body (it is not for `local name = function ...`)
+	IsLocalFunc bool
 }
 
 type FuncCallStmt struct {
